@@ -48,10 +48,10 @@ func TestTranslatorAgainstNativeGo(t *testing.T) {
 	if _, err := exec.LookPath("coqc"); err != nil {
 		t.Skip("coqc not found")
 	}
-	body, err := Translate(".", TransSpec{Dir: "internal/sample", Structs: []string{"Stack"}, Funcs: []string{
+	body, err := Translate(".", TransSpec{Dir: "internal/sample", Structs: []string{"Stack", "Words"}, Funcs: []string{
 		"DivMod", "Shifts", "Bits", "U8", "U32", "MinMax", "Cmp", "AndDiv", "OrDiv", "Bools", "Safe", "Classify", "Early", "MustPos",
 		"SumTo", "Collatz", "FindFirst", "SumPositiveUntilZero", "CountRange", "Nested", "Forever", "Reverse", "Window", "Build",
-		"CopyInto", "Swap", "MakeNeg", "Script"}})
+		"CopyInto", "Swap", "MakeNeg", "Script", "WordIdx", "Pop64", "WordsScript"}})
 	if err != nil {
 		t.Fatal(err)
 	}
@@ -133,6 +133,26 @@ func TestTranslatorAgainstNativeGo(t *testing.T) {
 			}
 		}
 	}
+	// [BitsCode] uint64 words: int(u >> c), math/bits.OnesCountN, struct literals
+	words := []uint64{0, 1, 63, 64, 65, 4095, 1 << 31, 1<<32 - 1, 1 << 32, 0x5555555555555555, 1 << 63, 1<<64 - 1, 1<<64 - 64}
+	for _, a := range words {
+		a := a
+		add(fmt.Sprintf("g_WordIdx %d", a), func() string {
+			p, q, r, h := sample.WordIdx(uint(a))
+			return fmt.Sprintf("(%d, %d, %d, %d)", p, q, r, h)
+		})
+		for _, b := range words {
+			b := b
+			add(fmt.Sprintf("g_Pop64 %d %d", a, uint32(b)), func() string { return zs(sample.Pop64(a, uint32(b))) })
+			for _, k := range []uint{0, 5, 63, 64, 127, 128, 300} {
+				k := k
+				add(fmt.Sprintf("g_WordsScript 200 %d %d %d", a, b, k), func() string {
+					n, l, last, wl := sample.WordsScript(a, b, k)
+					return fmt.Sprintf("(%d, %d, %d, %d)", n, l, last, wl)
+				})
+			}
+		}
+	}
 	// out of fuel is its own value
 	ex = append(ex, "Example fuel1 : g_SumTo 5 10 = NoFuel.\nProof. vm_compute. reflexivity. Qed.")
 	ex = append(ex, "Example fuel2 : g_SumTo 11 10 = Ret 55.\nProof. vm_compute. reflexivity. Qed.")
@@ -164,8 +184,8 @@ func TestTranslatorAgainstNativeGo(t *testing.T) {
 
 // everything outside the subset must be refused with a position
 func TestTranslatorFailsClosed(t *testing.T) {
-	for _, fn := range []string{"Alias", "Closure", "Recursive", "Goroutine", "MapUse", "WriteParam", "Labelled", "PtrArith", "Defer", "Box.OrderDep"} {
-		_, err := Translate(".", TransSpec{Dir: "internal/refused", Structs: []string{"Box"}, Funcs: []string{fn}})
+	for _, fn := range []string{"Alias", "Closure", "Recursive", "Goroutine", "MapUse", "WriteParam", "Labelled", "PtrArith", "Defer", "Box.OrderDep", "LitAlias", "BigConv"} {
+		_, err := Translate(".", TransSpec{Dir: "internal/refused", Structs: []string{"Box", "Pack"}, Funcs: []string{fn}})
 		if err == nil || !strings.Contains(err.Error(), "unsupported") || !strings.Contains(err.Error(), "refused.go:") {
 			t.Errorf("%s: expected `unsupported: ... at file:line`, got %v", fn, err)
 		} else {
